@@ -42,6 +42,7 @@ type Options struct {
 	SinceHook    func(fr *frame) value
 	Params       map[string]int
 	ActiveFindings map[string]bool
+	PassWitness  int      // completed passing paths whose model is handed back for native validation of the translator
 	CrossSolvers []string // second solvers for the unsat cross-check (none = off)
 	CrossEvery   int      // every n-th unsat verdict is cross-checked
 	CrossMax     int      // at most this many per harness
@@ -73,6 +74,8 @@ type Engine struct {
 	Report   *Report
 	stop     atomic.Bool
 	cross    *crossChecker
+	okSeen   atomic.Int64
+	okTaken  atomic.Int64
 }
 
 type Worker struct {
@@ -124,6 +127,7 @@ type Report struct {
 	Samples     []string
 	MaxTrace    int
 	Truncated   bool
+	PassWitnesses []*Violation // models of passing paths (Kind "pass"; Msg = assertion ids that held)
 	Cross       []*CrossStat
 	CrossSeen   int64 // unsat verdicts of the primary solver
 }
@@ -380,8 +384,42 @@ func (w *Worker) collect(st *pathState) {
 			outViol = &Violation{Kind: "livelock", ID: "livelock", Msg: st.msg, Model: m, Inputs: st.inputs, Trace: st.trace}
 		}
 	}
+	var passW *Violation
+	if st.outcome == OutOK && !st.inexact && e.Opts.PassWitness > 0 && e.Opts.Prefix == nil {
+		clean := true
+		var held []string
+		seenID := map[string]bool{}
+		for _, ev := range st.events {
+			switch ev.Kind {
+			case EvAssertViolated, EvAssertUnknown, EvKnownObserved, EvRace:
+				clean = false
+			case EvAssertHolds:
+				if !seenID[ev.ID] {
+					seenID[ev.ID] = true
+					held = append(held, ev.ID)
+				}
+			}
+		}
+		if clean {
+			n := e.okSeen.Add(1)
+			pow := n == 1
+			for p := int64(7); p <= n && !pow; p *= 7 {
+				pow = p == n
+			}
+			if pow && e.okTaken.Load() < 12 {
+				if res, m := w.solver.CheckModel(st.pc, st.inputVars()); res == sym.Sat {
+					e.okTaken.Add(1)
+					sort.Strings(held)
+					passW = &Violation{Kind: "pass", ID: "pass", Msg: strings.Join(held, ","), Model: m, Inputs: st.inputs, Trace: st.trace}
+				}
+			}
+		}
+	}
 	e.mu.Lock()
 	defer e.mu.Unlock()
+	if passW != nil {
+		r.PassWitnesses = append(r.PassWitnesses, passW)
+	}
 	r.Paths++
 	r.Outcomes[st.outcome.String()]++
 	if steps, ok := st.extra["steps"].(int64); ok {
